@@ -21,7 +21,7 @@ func init() {
 			"(R1) descriptor agreement: every protoscan read executes under a field number the message defines (case clause, tagless switch, `== N` test, inherited through *protoscan.Message parameters) and uses the read method of that field's declared type (packed columns through Iterator with element reads and Count wire class of the column's type); every descriptor field of a decoded message is tested for; the generated struct tags agree with the .proto; " +
 			"(R2) freshness: while one DenseNodes / Way / Relation message is decoded no cached iterator left over from an earlier block or element can be used: an exact reachable-valuation analysis over found-flags, returned errors and iterator states, run from the method that receives the element's bytes with every decoder method it calls inlined, proves every use sees an iterator assigned from the current message, or nil where the use is nil-guarded; " +
 			"(R3) block parameters (granularity, offsets, date granularity, string table) are reset or re-allocated on every path from the decode entry point to the first read of a block's message (resets may live in helpers), no parameter is parsed once a group has been decoded, and the groups are only reachable through the exhausted exit of the parameter loop; " +
-			"(R4) provenance: every element field is computed from the column the format assigns to it and from no other column, through the string table / offsets / granularities / unit constants (compared by value) the format prescribes; values are traced context-sensitively through helper functions; " +
+			"(R4) provenance: every element field is computed from the column the format assigns to it and from no other column, through the string table / offsets / granularities / unit constants (compared by value) the format prescribes; values are traced context-sensitively through helper functions, struct fields of the package, methods of a parameter struct and setter closures handed to a helper; stores through pointers (`*p = v`, a struct of field pointers built in a composite literal) are attributed to every element field the pointer can denote; the member type may be decided by a switch, an if chain, a classifying function or a constant map of the package; " +
 			"(R5, part of R4) columns marked DELTA coded reach the element through a running sum, the others do not; " +
 			"(R6) every element literal starts with Visible: true; header fields come from the same-named header getters, the bbox edges from left/right/bottom/top scaled by 1e-9, the replication timestamp only under a presence test of its field; " +
 			"(R7, shared with C08.O5) element storage kept for reuse (tags, way nodes, members) is only re-sliced to [:0], extended by append of whole elements or replaced by zeroed make: a reused, non-zeroed backing array would let an element inherit a value (e.g. node coordinates) from an earlier element. " +
@@ -39,8 +39,8 @@ func init() {
 			{ID: "R6", Floor: 14, Doc: "format defaults and header mapping (floor: header fields + one literal per element kind)", Run: c01R6},
 			{ID: "R7", Floor: 5, Doc: "reused element storage is never re-exposed without zeroing (same necessary condition as C08.O5)", Run: c08O5},
 		},
-		Benign: append(append(append([]core.Mutant{}, c01Benign...), c01Benign2...), c01Benign3...),
-		Mutants: []core.Mutant{
+		Benign: append(append(append(append([]core.Mutant{}, c01Benign...), c01Benign2...), c01Benign3...), c01Benign4...),
+		Mutants: append(append([]core.Mutant{}, c01Mutants2...), []core.Mutant{
 			{Name: "dense-uid-int32", File: "osmpbf/decode_data.go", Find: "v5, err := dec.uids.Sint32()", Replace: "v5, err := dec.uids.Int32()", ExpectRule: "R1", ExpectConstruct: "uids"},
 			{Name: "info-uid-as-uint32", File: "osmpbf/decode_data.go", Find: "\t\t\t\tcase 4:\n\t\t\t\t\tv, err := info.Int32()\n\t\t\t\t\tif err != nil {\n\t\t\t\t\t\treturn nil, err\n\t\t\t\t\t}\n\t\t\t\t\tway.UserID", Replace: "\t\t\t\tcase 4:\n\t\t\t\t\tv, err := info.Uint32()\n\t\t\t\t\tif err != nil {\n\t\t\t\t\t\treturn nil, err\n\t\t\t\t\t}\n\t\t\t\t\tway.UserID", ExpectRule: "R1", ExpectConstruct: "scanWays"},
 			{Name: "lat-lon-cases-swapped", File: "osmpbf/decode_data.go", Find: "\t\tcase 8: // lat\n\t\t\tdec.lats, err = msg.Iterator(dec.lats)\n\t\t\tfoundLats = true\n\t\tcase 9: // lon\n\t\t\tdec.lons, err = msg.Iterator(dec.lons)\n\t\t\tfoundLons = true", Replace: "\t\tcase 9: // lat\n\t\t\tdec.lats, err = msg.Iterator(dec.lats)\n\t\t\tfoundLats = true\n\t\tcase 8: // lon\n\t\t\tdec.lons, err = msg.Iterator(dec.lons)\n\t\t\tfoundLons = true", ExpectRule: "R4", ExpectConstruct: "Node.Lat"},
@@ -65,7 +65,7 @@ func init() {
 			{Name: "bbox-top-bottom-swapped", File: "osmpbf/decode.go", Find: "MinLat: 1e-9 * float64(*headerBlock.Bbox.Bottom),", Replace: "MinLat: 1e-9 * float64(*headerBlock.Bbox.Top),", ExpectRule: "R6", ExpectConstruct: "MinLat"},
 			{Name: "way-nodes-regrown-unzeroed", File: "osmpbf/decode_data.go", Find: "way.Nodes = make(osm.WayNodes, dec.wlats.Count(protoscan.WireTypeVarint))", Replace: "if n := dec.wlats.Count(protoscan.WireTypeVarint); n <= cap(way.Nodes) {\n\t\t\t\t\tway.Nodes = way.Nodes[:n]\n\t\t\t\t} else {\n\t\t\t\t\tway.Nodes = make(osm.WayNodes, n)\n\t\t\t\t}", ExpectRule: "R7", ExpectConstruct: "scanWays"},
 			{Name: "member-type-way-as-node", File: "osmpbf/decode_data.go", Find: "\t\tcase osmpbf.Relation_WAY:\n\t\t\tmembers[index].Type = osm.TypeWay", Replace: "\t\tcase osmpbf.Relation_WAY:\n\t\t\tmembers[index].Type = osm.TypeNode", ExpectRule: "R4", ExpectConstruct: "Member.Type"},
-		},
+		}...),
 	})
 }
 
